@@ -288,6 +288,21 @@ def levelb_jac(ctx):
         flow_levelb(ctx, "ImplJacobian", {"P": 13, "B": 2}, ["AddOK", "SubOK", "DblOK", "NegOK", "EqOK", "AffOK", "MulOK"], workers=12, timeout=3600)
 
 
+def levelb_tower(ctx):
+    # TowerAlgo over F_13 against the polynomial ring: Fq2 all pairs, Fq12 samples (quick); Fq4 all elements x structured set, Frobenius codes (thorough)
+    def tw(init, label, workers=8):
+        cfg = f"{BUILD}/tr/{ctx.pid}-ImplTower-{label}.cfg"
+        os.makedirs(os.path.dirname(cfg), exist_ok=True)
+        with open(cfg, "w") as f:
+            f.write(f"INIT {init}\nNEXT Next\nINVARIANT AllOK\nCHECK_DEADLOCK FALSE\n")
+        flow_model(ctx, "ImplTower", cfg=cfg, workers=workers, timeout=3600, xmx="6g", label=f"ImplTower-{label}")
+    tw("Init2", "Fq2")
+    tw("Init12", "Fq12")
+    if not ctx.quick():
+        tw("Init4", "Fq4", workers=12)
+        tw("Init4F", "Fq4-frobenius", workers=12)
+
+
 def levelb_sqrt(ctx):
     for pr in ([13, 29, 37] if ctx.quick() else [13, 29, 37, 53, 61]):
         flow_levelb(ctx, "ImplSqrt", {"P": pr, "FIXED": "TRUE"}, ["FqOK", "Fq2Sound", "Fq2Complete", "Fq2NoFalse"], workers=4)
@@ -415,6 +430,7 @@ def p_C17(ctx):
     flow_trace(ctx, "tower", 800, 14000, chunk=50)
     # both hard-part addition chains, as exponent arithmetic modulo Phi12(q) at the real parameters
     flow_model(ctx, "ImplFinalExp", workers=1, timeout=600, xmx="2g", label="ImplFinalExp")
+    levelb_tower(ctx)
     if not ctx.quick():
         # both Miller loops (MillerAlgo) against the textbook pairing on the toy BN curve
         flow_model(ctx, "MC_MillerToy", workers=6, timeout=3600, xmx="6g", label="MC_MillerToy")
